@@ -275,6 +275,258 @@ class SpecTerminal:
 
 
 # ---------------------------------------------------------------------------------------------
+# K "display model": the scenario replayed through Model.Display (drv_e2e `display …`)
+# ---------------------------------------------------------------------------------------------
+AGE_GUARD_US = 10_000
+
+
+class DisplayK:
+    """Collects, while a scenario runs on the real code, the abstract request list of `Model.Display` with the
+    implementation's choices as inputs, and what the real code did per request; `finish()` replays the list
+    through the model (drv_e2e) and compares, request by request:
+      real "bytes were written to the command stream" (+ the `i=` of the transmit command)  vs  model transmit event,
+      printed (id, rows, cols) decoded from the display stream                               vs  model print event,
+      id of the returned instance / placeholder, or an exception                             vs  model result.
+    Inputs taken from the implementation (never predicted): per `get_id` call its arguments (description, space,
+    subspace), the returned id, the sampled candidates (SQL trace) and the rows each internal clean-up removed
+    (table reads around the DELETE); the description / availability of an `ImageInstance` before the call; the
+    transmitted size (bytes that reached the terminal).
+    Time: the model executes a request at ONE clock value, the real code reads the patched clock up to three times
+    per request (each read +1 ms).  The model is given the clock value at the START of each request: all time
+    stamps written by different requests keep their order (one stamped write per table per request), which is all
+    that LRU recycling and uploads_ago / bytes_ago depend on; only the age test `now - upload_time > max` could
+    differ, within 2 ms of its boundary — a scenario that comes within AGE_GUARD_US of it is skipped (counted).
+    Anything that cannot be mapped faithfully sets `skip` (counted as K-display:skipped:<why>)."""
+
+    def __init__(self, ctx, c, cfg, terms, dbfile, clock, thr, ssh):
+        import sqlite3
+        from . import dbutil as D
+        self.D = D
+        self.ctx, self.c, self.cfg, self.terms, self.clock, self.thr, self.ssh = ctx, c, cfg, terms, clock, thr, ssh
+        self.steps = []          # wire tokens
+        self.real = []           # one dict per R step
+        self.skip = None
+        self.gets = []           # get_id calls observed since the last begin()
+        self.tx = []             # transmit commands observed since the last begin(): (terminal name, i=)
+        self.cur = None
+        self.conn2 = sqlite3.connect(dbfile, isolation_level=None)
+        self.traces = []
+        m = cfg.get("upload_method", "auto")
+        self.method = m if m in ("auto", "file", "direct") else None
+        if self.method is None:
+            self.skip = "upload-method-form"
+        # (the terminal id is fixed by `terminal_id=`, with or without `redetect_terminal`)
+        for ti, T in enumerate(terms):
+            self._wrap(ti, T["t"].id_manager)
+
+    def give_up(self, why):
+        if self.skip is None:
+            self.skip = why
+
+    def _wrap(self, ti, man):
+        D = self.D
+        tr = D.SqlTrace(man.conn)
+        self.traces.append(tr)
+        orig = man.get_id
+        me = self
+
+        def get_id(description, id_space, *, subspace=None):
+            if subspace is None:
+                me.give_up("get_id-default-subspace")
+                return orig(description, id_space)
+            ns = id_space.namespace_name()
+            tr.take()
+            snaps, pending = [], [None]
+
+            def settle():
+                if pending[0] is not None:
+                    post = {r[0] for r in me.conn2.execute(f"SELECT id FROM {ns}")}
+                    snaps.append(sorted(pending[0] - post))
+                    pending[0] = None
+
+            def hook(stmt):
+                settle()
+                if D._RX_DELETE_IN.match(stmt):
+                    pending[0] = {r[0] for r in me.conn2.execute(f"SELECT id FROM {ns}")}
+
+            tr.hook = hook
+            rid = None
+            try:
+                rid = orig(description, id_space, subspace=subspace)
+                return rid
+            finally:
+                tr.hook = None
+                settle()
+                rounds, _n, _b = D.get_id_trace_choices(tr.take())
+                me.gets.append(dict(ti=ti, desc=description, cb=id_space.color_bits, u3=id_space.use_3rd_diacritic,
+                                    b=subspace.begin, e=subspace.end, rid=rid, rounds=rounds, removed=snaps))
+
+        man.get_id = get_id
+
+    # -- per step ---------------------------------------------------------------------------------
+    def begin(self):
+        self.gets, self.tx = [], []
+        self.at = self.clock.micros()
+
+    def note_transmit(self, name, keys):
+        self.tx.append((name, keys.get("i")))
+
+    @staticmethod
+    def _desc_fields(description):
+        try:
+            p = json.loads(description)
+            return hashlib.sha1(description.encode()).hexdigest()[:16], int(p["rows"]), int(p["cols"])
+        except Exception:
+            return None
+
+    def _alloc_target(self, raised=False):
+        """(target token, description fields) from the single get_id call of this step"""
+        if raised and not self.gets:
+            self.give_up("raised-before-get_id")     # e.g. the image could not be opened: the database was never reached
+            return None
+        if len(self.gets) != 1:
+            self.ctx.mismatch("display model: number of get_id calls in one assign_id", self.c, len(self.gets), 1)
+            self.give_up("get_id-calls")
+            return None
+        g = self.gets[0]
+        f = self._desc_fields(g["desc"])
+        if f is None:
+            self.give_up("description-not-json")
+            return None
+        D = self.D
+        tg = f"a@{g['cb']}@{1 if g['u3'] else 0}@{g['b']}@{g['e']}@{g['rid'] if g['rid'] is not None else 0}@{D._enc_rounds(g['rounds'])}@{D._enc_rounds(g['removed'])}"
+        return tg, f
+
+    def env_assign(self, req, inst):
+        """`assign_id` alone: an environment step of the model (`get_id` / `set_id` by any user of the database)"""
+        if self.skip:
+            return
+        if req.get("force_id") is not None:
+            if self.gets:
+                self.give_up("get_id-with-force_id")
+                return
+            f = self._desc_fields(inst.get_description()) if inst is not None else None
+            if f is None:
+                self.give_up("forced-assign-raised")
+                return
+            self.steps.append(f"S;{self.at};{req['force_id']};{f[0]};{f[1]};{f[2]}")
+        else:
+            a = self._alloc_target(raised=inst is None)
+            if a is None:
+                return
+            self.steps.append(f"G;{self.at};{a[0]};{a[1][0]};{a[1][1]};{a[1][2]}")
+
+    def env_del(self, i):
+        if not self.skip:
+            self.steps.append(f"D;{self.at};{i}")
+
+    def request(self, ti, req, *, entry=None, inst_desc=None, inst_id=None, is_file=None, available=None, display,
+                ret, cmd_bytes, printed, raised):
+        """one `upload` / `upload_and_display` of the real code, finished (normally or by an exception)"""
+        if self.skip:
+            return
+        name = self.terms[ti]["spec"].name
+        for tj, T in enumerate(self.terms):
+            if tj != ti and (len(T["cmd"].value()) != T["cpos"] or len(T["disp"].value()) != T["dpos"]):
+                self.ctx.mismatch("display model: a request wrote to another terminal", self.c, {"request": req, "other": T["spec"].name}, "nothing")
+                self.give_up("wrote-to-other-terminal")
+                return
+        if inst_id is not None:
+            if self.gets:
+                self.ctx.mismatch("display model: get_id called for an ImageInstance", self.c, req, "no get_id")
+                self.give_up("get_id-calls")
+                return
+            tg, f = f"i@{inst_id}", self._desc_fields(inst_desc)
+            if f is None:
+                self.give_up("description-not-json")
+                return
+        elif req.get("force_id") is not None:
+            if self.gets:
+                self.give_up("get_id-with-force_id")
+                return
+            tg = f"f@{req['force_id']}"
+            row = None
+            try:
+                from tupimage import id_manager as im
+                ns = im.IDSpace.from_id(req["force_id"]).namespace_name()
+                row = self.conn2.execute(f"SELECT description FROM {ns} WHERE id=?", (req["force_id"],)).fetchone()
+            except ValueError:
+                pass
+            f = self._desc_fields(row[0]) if row else None
+            if f is None:
+                if not raised:
+                    self.give_up("forced-row-missing")
+                    return
+                f = ("unbound", 0, 0)      # set_id raised: the model's result does not depend on the description
+        else:
+            a = self._alloc_target(raised=raised)
+            if a is None:
+                return
+            tg, f = a
+        if entry is not None:
+            is_file = entry["image"] is None
+            available = bool(entry["path"]) and os.path.exists(entry["path"])
+        spec = self.terms[ti]["spec"]
+        size = 0
+        if self.tx:
+            if spec.partial is not None or not spec.log or str(spec.log[0]["id"]) != str(self.tx[-1][1]):
+                self.give_up("incomplete-transfer")
+                return
+            size = spec.log[0]["size"]
+        force = req.get("force_upload")
+        if force is None:
+            force = bool(self.cfg.get("force_upload", False))
+        self.steps.append(f"R;{self.at};{name};{tg};{f[0]};{f[1]};{f[2]};{size};{1 if force else 0};{1 if display else 0};"
+                          f"{self.method};{1 if self.ssh else 0};{1 if is_file else 0};{1 if available else 0}")
+        self.real.append(dict(req=req, term=name, tx=list(self.tx), cmd_bytes=cmd_bytes, printed=printed, ret=ret, raised=raised))
+
+    # -- the comparison ---------------------------------------------------------------------------
+    def finish(self):
+        for tr in self.traces:
+            tr.close()
+        self.conn2.close()
+        ctx = self.ctx
+        if self.skip:
+            ctx.count("K-display:skipped:" + self.skip)
+            return
+        if not self.real:
+            ctx.count("K-display:skipped:no-requests")
+            return
+        line = (f"display {self.cfg.get('max_ids_per_subspace', 1024)} 1 {self.thr[0]} {self.thr[1]} {self.thr[2]} " + " ".join(self.steps))
+        reply = ctx.driver("drv_e2e").ask(line).split(" ")
+        if reply[0] != "ok" or len(reply) != 1 + len(self.real):
+            ctx.mismatch("display model: driver rejected the replay", self.c, {"steps": self.steps[:40]}, " ".join(reply)[:200])
+            return
+        outs = [r.split(";") for r in reply[1:]]
+        if any(o[3] != "-" and int(o[3]) <= AGE_GUARD_US for o in outs):
+            ctx.count("K-display:skipped:age-test-within-guard-of-boundary")
+            return
+        ctx.count("K-display:scenarios-compared")
+        small = self.thr[0] < 1024 or self.thr[1] < 20 * 1024 * 1024
+        for k, (o, r) in enumerate(zip(outs, self.real)):
+            mtx, mpr, mret = o[0], o[1], o[2]
+            if r["cmd_bytes"] == 0 and not r["tx"]:
+                rtx = "-"
+            elif len(r["tx"]) == 1:
+                rtx = f"t@{r['tx'][0][0]}@{r['tx'][0][1]}"
+            else:
+                rtx = f"bytes={r['cmd_bytes']},transmit-commands={[t[1] for t in r['tx']]}"
+            if len(r["printed"]) == 0:
+                rpr = "-"
+            elif len(r["printed"]) == 1:
+                rpr = "p@%s@%d@%d@%d" % ((r["term"],) + tuple(r["printed"][0]))
+            else:
+                rpr = f"several:{sorted(r['printed'])}"
+            rret = "none" if r["raised"] else str(r["ret"])
+            ctx.count("K-display:requests-compared")
+            ctx.count(f"K-display:{'small' if small else 'default'}-thresholds:{'transmit' if mtx != '-' else 'no-transmit'}")
+            if (rtx, rpr, rret) != (mtx, mpr, mret):
+                ctx.mismatch("display model", self.c, {"request_index": k, "request": r["req"], "transmit": rtx, "print": rpr, "returned": rret},
+                             {"transmit": mtx, "print": mpr, "returned": mret})
+                return      # the model state has diverged; later requests would only repeat the finding
+
+
+# ---------------------------------------------------------------------------------------------
 # scenario execution
 # ---------------------------------------------------------------------------------------------
 def _make_pool(td, spec):
@@ -334,9 +586,11 @@ def check_case(ctx: Ctx, c: dict):
         resolved_file = (method_cfg in ("file", "f")) or (method_cfg == "auto" and not c.get("ssh"))
         library_files = set()
         instances = {}     # name -> (ImageInstance, pool index at creation)
+        kd = DisplayK(ctx, c, cfg, terms, os.path.join(td, "s.db"), clock, thr, bool(c.get("ssh")))
 
         def on_transmit(spec, keys, payload):
             medium = keys.get("t", "d")
+            kd.note_transmit(spec.name, keys)
             ctx.count("medium:" + medium)
             if medium in ("f", "t"):
                 path = payload.decode()
@@ -359,6 +613,7 @@ def check_case(ctx: Ctx, c: dict):
             disp = T["disp"].value()[T["dpos"]:]
             T["dpos"] += len(disp)
             printed = decode_placeholders(disp) if disp else {}
+            seen = (len(data), [(iid, 1 + max(r for r, _ in cells), 1 + max(cc for _, cc in cells)) for (iid, _pid), cells in printed.items()])
             first_disp = min([e[0] for e in log.events[T.get("evpos", 0):] if e[1] == "disp:" + T["spec"].name and e[2] == "write"] or [1 << 60])
             T["evpos"] = len(log.events)
             for (iid, pid), cells in printed.items():
@@ -380,12 +635,18 @@ def check_case(ctx: Ctx, c: dict):
                 if erows is not None and (rows, cols) != (erows, ecols):
                     ctx.violation("printed rectangle differs from the requested rows/cols", c, {"request": req, "printed": [rows, cols]},
                                   key="geometry")
+            acc["bytes"] += seen[0]
+            acc["printed"] += seen[1]
 
+        acc = {"bytes": 0, "printed": []}     # what sync() saw during the current request (for the K "display model")
         for req in c["requests"]:
             op = req["op"]
             ctx.count("op:" + op)
             ti = req.get("t", 0) % nterm
             T = terms[ti]["t"]
+            acc["bytes"], acc["printed"] = 0, []
+            kr = None                         # the model request this library call corresponds to (set just before the call)
+            kd.begin()
             kw = {}
             for k in ("cols", "rows", "id_space", "id_subspace", "force_upload", "upload_method", "force_id"):
                 if req.get(k) is not None:
@@ -406,31 +667,40 @@ def check_case(ctx: Ctx, c: dict):
                     inst = instances.get(req["inst"])
                     if inst is not None:
                         T.id_manager.del_id(inst[0].id)
+                        kd.env_del(inst[0].id)
                     continue
                 e = pool[req["img"] % len(pool)] if "img" in req else None
                 arg = (e["image"] if e["image"] is not None else e["path"]) if e else None
                 if op == "upload_and_display":
                     token, size, mode = _expected_token(e)
+                    kr = dict(entry=e, display=True)
                     ph = T.upload_and_display(arg, **kw)
                     sync(ti, req, dict(token=token, size=size, mode=mode, entry=e, is_file=resolved_file,
                                        rows=ph.end_row - ph.start_row, cols=ph.end_col - ph.start_col))
+                    kd.request(ti, req, **kr, ret=ph.image_id, cmd_bytes=acc["bytes"], printed=acc["printed"], raised=False)
                 elif op == "upload":
+                    kr = dict(entry=e, display=False)
                     inst = T.upload(arg, **kw)
                     instances[req["name"]] = (inst, req["img"] % len(pool), _expected_token(e))
                     sync(ti, req)
+                    kd.request(ti, req, **kr, ret=inst.id, cmd_bytes=acc["bytes"], printed=acc["printed"], raised=False)
                 elif op == "assign":
+                    kr = "assign"
                     inst = T.assign_id(arg, **{k: v for k, v in kw.items() if k in ("cols", "rows", "id_space", "id_subspace", "force_id")})
                     instances[req["name"]] = (inst, req["img"] % len(pool), _expected_token(e))
                     sync(ti, req)
+                    kd.env_assign(req, inst)
                 elif op == "display_instance":   # display_only right after upload of the same instance on the same terminal
                     ent = instances.get(req["inst"])
                     if ent is None:
                         continue
                     inst, pi, (token, size, mode) = ent
+                    kr = _inst_request(inst, display=True)
                     T.upload(inst)
                     sync(ti, dict(req, phase="upload"))
                     ph = T.display_only(inst)
                     sync(ti, req, dict(token=token, size=size, mode=mode, entry=pool[pi], is_file=resolved_file, rows=inst.rows, cols=inst.cols))
+                    kd.request(ti, req, **kr, ret=ph.image_id, cmd_bytes=acc["bytes"], printed=acc["printed"], raised=False)
                 elif op == "redisplay_instance":
                     # upload_and_display of an ImageInstance obtained EARLIER (get_image_instance / upload / assign_id);
                     # other requests may have re-bound its ID since.
@@ -440,8 +710,10 @@ def check_case(ctx: Ctx, c: dict):
                     inst, pi, (token, size, mode) = ent
                     if pool[pi]["image"] is not None and inst.image is None:
                         inst.image = pool[pi]["image"]
+                    kr = _inst_request(inst, display=True)
                     ph = T.upload_and_display(inst, **{k: v for k, v in kw.items() if k in ("force_upload",)})
                     sync(ti, req, dict(token=token, size=size, mode=mode, entry=pool[pi], is_file=resolved_file, rows=inst.rows, cols=inst.cols))
+                    kd.request(ti, req, **kr, ret=ph.image_id, cmd_bytes=acc["bytes"], printed=acc["printed"], raised=False)
                 elif op == "redisplay_id":       # the CLI's `display <id>`: get_image_instance + upload_and_display
                     ent = instances.get(req["inst"])
                     if ent is None:
@@ -460,17 +732,22 @@ def check_case(ctx: Ctx, c: dict):
                         continue
                     if pool[bound[0]]["image"] is not None:
                         inst.image = pool[bound[0]]["image"]   # in-memory images cannot be reloaded from a path
+                    kr = _inst_request(inst, display=True)
                     ph = T.upload_and_display(inst)
                     token, size, mode = bound[1]
                     sync(ti, req, dict(token=token, size=size, mode=mode, entry=pool[bound[0]], is_file=resolved_file, rows=inst.rows, cols=inst.cols))
+                    kd.request(ti, req, **kr, ret=ph.image_id, cmd_bytes=acc["bytes"], printed=acc["printed"], raised=False)
                 else:
                     raise ValueError(op)
             except FileNotFoundError:
                 ctx.count("exc:FileNotFoundError")   # a touched file whose old instance is redisplayed: the library refuses, nothing is printed
                 sync(ti, req)
+                _k_raised(kd, kr, ti, req, acc)
             except RuntimeError as ex:
                 ctx.count("exc:RuntimeError")
                 sync(ti, req)
+                _k_raised(kd, kr, ti, req, acc)
+        kd.finish()
         for T in terms:
             T["t"].id_manager.close()
     finally:
@@ -481,6 +758,21 @@ def check_case(ctx: Ctx, c: dict):
                 f.unlink()
             except OSError:
                 pass
+
+
+def _inst_request(inst, display):
+    """what the model needs to know about an `ImageInstance` request, read off the instance BEFORE the call"""
+    is_file = inst.image is None
+    return dict(inst_desc=inst.get_description(), inst_id=inst.id, is_file=is_file,
+                available=(inst.is_file_available() if is_file else True), display=display)
+
+
+def _k_raised(kd, kr, ti, req, acc):
+    if kr == "assign":
+        kd.env_assign(req, None)
+    elif kr is not None:
+        kd.request(ti, req, **kr, ret=None, cmd_bytes=acc["bytes"], printed=acc["printed"], raised=True)
+    # kr is None: the exception came from a harness-side call before the library request; nothing to mirror
 
 
 def _vkey(req, shows, token):
